@@ -147,7 +147,9 @@ pub fn entry_points<F: Family>(p: &F::Packet, t: &mut Tape, ctx: &mut Ctx) -> Ca
                 iw.one_byte = true;
                 match F::body_encode(p, &mut iw) {
                     Some(Ok(())) => ensure!(iw.out == body, "body streaming encoder into a sink that is interrupted every other call wrote {} instead of {}", hex_short(&iw.out, 48), hex_short(&body, 48)),
-                    other => viol!("body streaming encoder gave up on a sink that reports ErrorKind::Interrupted every other call: {:?}", other),
+                    // handing the interruption on as an error claims nothing about the bytes written: acceptable
+                    Some(Err(e)) if e.kind() == std::io::ErrorKind::Interrupted => {}
+                    other => viol!("body streaming encoder on a sink that reports ErrorKind::Interrupted every other call: {:?}", other),
                 }
             }
             ctx.label("interrupted-sinks");
